@@ -328,6 +328,57 @@ def rule_p2(ctx, F):
         ctx.ok("P2", "iterator_new", "iterators start without a previous external token", nontrivial=False)
 
 
+def rule_p3(ctx, F):
+    """P3: the parts of the document the pairwise walk never visits are reported as changed: the gap
+    between the two trees' start positions, and the tail by which one tree is longer than the other;
+    the cursor into the included-range differences only moves past ranges that end at/before the position."""
+    fn = ctx.need_fn(F, "ts_subtree_get_changed_ranges", "P3")
+    if not fn:
+        return
+    for a, b, what in (("position", "next_position", "head (old tree starts first)"), ("next_position", "position", "head (new tree starts first)"),
+                       ("old_size", "new_size", "tail (new tree longer)"), ("new_size", "old_size", "tail (old tree longer)")):
+        adds = [pt for pt, n in find(fn, "ts_range_array_add(&results, %s, %s)" % (a, b))]
+        key = "ts_subtree_get_changed_ranges:%s-reported" % what.split(" ")[0] + ("-" + ("old" if "old tree" in what else "new"))
+        if not adds:
+            ctx.bad("P3", key, "ts_subtree_get_changed_ranges no longer reports the %s as a changed range" % what)
+            continue
+        line = lambda p: int(fn.loc(p).rsplit(":", 1)[-1])
+        first = min(adds, key=line)       # the head/tail report is the first such append in source order (the loop body has its own)
+        ctx.gate("P3", fn, [first], [("the %s is reported exactly when it is non-empty" % what, "%s.bytes < %s.bytes" % (a, b), True)], accept_desc="reporting the %s" % what)
+
+        class Must(Monitor):
+            """after the True edge of `a.bytes < b.bytes` the matching add happens before the next branch on positions"""
+            def __init__(self, pat, add_pts):
+                self.pat, self.adds = pat, set(add_pts)
+
+            def elem(self, m, pt, e, s):
+                if m == 1 and pt in self.adds:
+                    return 2
+                if m == 1 and any(n.get("k") == "assign" and show(strip(n["l"])) in (a, b) for n in own_walk(e)):
+                    return Viol("`%s` / `%s` is overwritten before the %s was reported" % (a, b, what), pt)
+                return m
+
+            def edge(self, m, bid, edge, cond, truth, s):
+                if m == 0 and cond is not None and truth is not None and s.m.cond_matches(self.pat, True, cond, truth):
+                    return 1
+                return m
+
+            def exit(self, m, bid, s):
+                if m == 1:
+                    return Viol("function returns without reporting the %s" % what)
+                return None
+        srch = Search(fn, Must("%s.bytes < %s.bytes" % (a, b), adds))
+        v = srch.run(0)
+        if v is None:
+            ctx.ok("P3", key + ":always", "whenever %s.bytes < %s.bytes the span between them is appended to the result (%d states)" % (a, b, srch.states))
+        else:
+            ctx.bad("P3", key + ":always", "ts_subtree_get_changed_ranges: %s (%s)" % (v.msg, fn.loc(v.pt) if v.pt else "exit"), {"path": srch.render_path(v.path)[-5:]})
+    from C06 import incs
+    skip = incs(fn, "included_range_difference_index")
+    ctx.floor("advances of the included-range-difference cursor", len(skip), 1)
+    ctx.gate("P3", fn, skip, [("a difference range is passed only when it ends at or before the current position", "range->end_byte <= position.bytes", True)], accept_desc="moving past a difference range")
+
+
 def run(ctx):
     for cfg in configs(ctx):
         ctx.config = cfg
@@ -339,6 +390,7 @@ def run(ctx):
         rule_p1(ctx, F)
         rule_p2(ctx, F)
         rule_g3(ctx, F)
+        rule_p3(ctx, F)
     return ctx.finish(
         "Gate rules over the Clang CFGs of get_changed_ranges.c/tree.c/parser.c: `IteratorMatches` (skip) is returned/taken only after every listed "
         "difference test failed and no included-range difference intersects; changed steps are recorded; TSRangeArray elements are appended only by the "
